@@ -20,6 +20,7 @@ from pyvc.devrun import load_contracts         # noqa: E402
 
 VENV_PY = os.environ.get("VERIF_VENV_PY", "/venv/bin/python")
 KF_PATH = os.path.join(ROOT, "known_findings.txt")
+OUT = os.environ.get("VERIF_OUT", ROOT)      # where evidence/ and replays/ are written (default: /verif)
 
 
 def sh_runner(args, timeout=3600):
@@ -64,12 +65,12 @@ def matches_finding(f, prop, function, clause, inputs=None):
 
 
 def write_replay(prop, rec):
-    os.makedirs(os.path.join(ROOT, "replays"), exist_ok=True)
+    os.makedirs(os.path.join(OUT, "replays"), exist_ok=True)
     h = hashlib.sha256(json.dumps(rec, sort_keys=True, default=str).encode()).hexdigest()[:12]
-    path = os.path.join(ROOT, "replays", "%s-%s.json" % (prop, h))
+    path = os.path.join(OUT, "replays", "%s-%s.json" % (prop, h))
     with open(path, "w") as fh:
         json.dump(rec, fh, indent=1, default=str)
-    return os.path.relpath(path, ROOT)
+    return os.path.relpath(path, OUT)
 
 
 def obligation_summary(obls, results):
@@ -139,8 +140,8 @@ def run_property(prop, tier, seed):
             replay_jobs.append(dict(function=fn, inputs=c["inputs"], obligation=c["obligation"], sizes=c["sizes"]))
     reproduced = {}
     if replay_jobs:
-        tmp_in = os.path.join(ROOT, "replays", ".batch_in_%s.json" % prop)
-        tmp_out = os.path.join(ROOT, "replays", ".batch_out_%s.json" % prop)
+        tmp_in = os.path.join(OUT, "replays", ".batch_in_%s.json" % prop)
+        tmp_out = os.path.join(OUT, "replays", ".batch_out_%s.json" % prop)
         os.makedirs(os.path.dirname(tmp_in), exist_ok=True)
         json.dump(replay_jobs, open(tmp_in, "w"), default=str)
         p = sh_runner(["batch", tmp_in, tmp_out])
@@ -153,7 +154,7 @@ def run_property(prop, tier, seed):
                 os.unlink(f)
     # ---------------------------------------------------------------- bounded stand-in (run-time contracts on the real code)
     n_si = int(os.environ.get("VERIF_STANDIN_N", "150" if tier == "quick" else "2000"))
-    si_path = os.path.join(ROOT, "replays", ".standin_%s.json" % prop)
+    si_path = os.path.join(OUT, "replays", ".standin_%s.json" % prop)
     os.makedirs(os.path.dirname(si_path), exist_ok=True)
     si = None
     p = sh_runner(["standin", prop, str(n_si), str(seed), si_path, tier])
@@ -286,8 +287,8 @@ def run_property(prop, tier, seed):
     )
     ev = dict(property_id=prop, tier=tier, seed=seed, level=level, coverage=cov, assumptions=assumptions,
               wall_s=round(time.time() - t0, 2), violations=len(violations))
-    os.makedirs(os.path.join(ROOT, "evidence"), exist_ok=True)
-    with open(os.path.join(ROOT, "evidence", prop + ".json"), "w") as fh:
+    os.makedirs(os.path.join(OUT, "evidence"), exist_ok=True)
+    with open(os.path.join(OUT, "evidence", prop + ".json"), "w") as fh:
         json.dump(ev, fh, indent=1, default=str)
     # ---------------------------------------------------------------- output
     print("property %s tier=%s: functions=%d lemmas=%d obligations=%d discharged=%d (symexec %.1fs, solve %.1fs) "
